@@ -3,4 +3,1268 @@ import RzmqModel.Proofs.EngineRun
 /-! Helper lemmas for the pair system (C05). -/
 namespace Rzmq
 
+-- ---------------------------------------------------------------------------------------------
+-- outputs of one endpoint as a function of everything it has received
+-- ---------------------------------------------------------------------------------------------
+
+theorem sendsOf_append (a b : Out) : sendsOf (a ++ b) = sendsOf a ++ sendsOf b := by
+  simp [sendsOf, Out.append_def]
+
+@[simp] theorem sendsOf_empty : sendsOf ({} : Out) = [] := rfl
+
+@[simp] theorem Out.app_nil_pair : ({} : Out).app = [] := rfl
+
+/-- state reached from `Eng.init` after receiving `x` (in one read; by cut independence: in any reads) -/
+def stOf (spec : AbsSpec) (cfg : Cfg) (x : Bytes) : Eng := (onNetworkBytes spec cfg 0 Eng.init x).1
+
+/-- application actions produced while receiving `x` -/
+def appOf (spec : AbsSpec) (cfg : Cfg) (x : Bytes) : List AppAct := (onNetworkBytes spec cfg 0 Eng.init x).2.app
+
+section Generic
+variable {spec : AbsSpec} {cfg : Cfg}
+
+theorem emitted_nil (hw : WellBehaved spec) : emitted spec cfg [] = Gen.SIGNATURE := by
+  simp only [emitted, onNetworkBytes_nil hw 0 quiescent_init', sendsOf_empty, List.append_nil]
+
+theorem appOf_nil (hw : WellBehaved spec) : appOf spec cfg [] = [] := by
+  simp only [appOf, onNetworkBytes_nil hw 0 quiescent_init', Out.app_nil_pair]
+
+theorem stOf_nil (hw : WellBehaved spec) : stOf spec cfg [] = Eng.init := by
+  simp only [stOf, onNetworkBytes_nil hw 0 quiescent_init']
+
+theorem stOf_append (hw : WellBehaved spec) (x y : Bytes) :
+    stOf spec cfg (x ++ y) = (onNetworkBytes spec cfg 0 (stOf spec cfg x) y).1 := by
+  simp only [stOf, onNetworkBytes_append hw]
+
+theorem emitted_append (hw : WellBehaved spec) (x y : Bytes) :
+    emitted spec cfg (x ++ y) = emitted spec cfg x ++ sendsOf (onNetworkBytes spec cfg 0 (stOf spec cfg x) y).2 := by
+  simp only [emitted, stOf, onNetworkBytes_append hw, sendsOf_append, List.append_assoc]
+
+theorem appOf_append (hw : WellBehaved spec) (x y : Bytes) :
+    appOf spec cfg (x ++ y) = appOf spec cfg x ++ (onNetworkBytes spec cfg 0 (stOf spec cfg x) y).2.app := by
+  simp only [appOf, stOf, onNetworkBytes_append hw, Out.app_append]
+
+theorem emitted_mono' (hw : WellBehaved spec) {x z : Bytes} (h : x <+: z) :
+    emitted spec cfg x <+: emitted spec cfg z := by
+  obtain ⟨y, rfl⟩ := h
+  rw [emitted_append hw]
+  exact List.prefix_append _ _
+
+theorem appOf_mono (hw : WellBehaved spec) {x z : Bytes} (h : x <+: z) :
+    appOf spec cfg x <+: appOf spec cfg z := by
+  obtain ⟨y, rfl⟩ := h
+  rw [appOf_append hw]
+  exact List.prefix_append _ _
+
+theorem sig_prefix_emitted (x : Bytes) : Gen.SIGNATURE <+: emitted spec cfg x :=
+  List.prefix_append _ _
+
+/-- a closed engine ignores everything -/
+theorem onNetworkBytes_closed {s : Eng} (h : s.phase = .closed) (d : Bytes) :
+    onNetworkBytes spec cfg 0 s d = ({ s with acc := s.acc ++ d }, {}) := by
+  unfold onNetworkBytes
+  exact run_closed (s := { s with acc := s.acc ++ d }) h _
+
+theorem stOf_closed_append (hw : WellBehaved spec) {x : Bytes} (h : (stOf spec cfg x).phase = .closed) (y : Bytes) :
+    (stOf spec cfg (x ++ y)).phase = .closed := by
+  rw [stOf_append hw, onNetworkBytes_closed h]
+  exact h
+
+theorem stOf_closed_mono (hw : WellBehaved spec) {x z : Bytes} (hp : x <+: z)
+    (h : (stOf spec cfg x).phase = .closed) : (stOf spec cfg z).phase = .closed := by
+  obtain ⟨y, rfl⟩ := hp
+  exact stOf_closed_append hw h y
+
+theorem emitted_closed_append (hw : WellBehaved spec) {x : Bytes} (h : (stOf spec cfg x).phase = .closed)
+    (y : Bytes) : emitted spec cfg (x ++ y) = emitted spec cfg x := by
+  rw [emitted_append hw, onNetworkBytes_closed h]
+  simp
+
+theorem appOf_closed_append (hw : WellBehaved spec) {x : Bytes} (h : (stOf spec cfg x).phase = .closed)
+    (y : Bytes) : appOf spec cfg (x ++ y) = appOf spec cfg x := by
+  rw [appOf_append hw, onNetworkBytes_closed h]
+  simp
+
+end Generic
+
+-- ---------------------------------------------------------------------------------------------
+-- list helpers
+-- ---------------------------------------------------------------------------------------------
+
+theorem prefix_antisymm' {α : Type} {a b : List α} (h1 : a <+: b) (h2 : b <+: a) : a = b := by
+  obtain ⟨t, rfl⟩ := h1
+  obtain ⟨u, hu⟩ := h2
+  have : (t ++ u).length = 0 := by
+    have := congrArg List.length hu
+    simp only [List.length_append] at this ⊢
+    omega
+  have ht : t = [] := by
+    cases t with
+    | nil => rfl
+    | cons x xs => simp at this
+  simp [ht]
+
+theorem take_prefix_self {α : Type} (k : Nat) (l : List α) : l.take k <+: l :=
+  ⟨l.drop k, List.take_append_drop k l⟩
+
+-- ---------------------------------------------------------------------------------------------
+-- moves
+-- ---------------------------------------------------------------------------------------------
+
+section Moves
+variable {spec : AbsSpec} {cfgA cfgB : Cfg}
+
+theorem Pair.move_ab_nil {p : Pair} (n : Nat) (h : p.ab = []) : p.move spec cfgA cfgB (.ab n) = p := by
+  simp [Pair.move, h]
+
+theorem Pair.move_ba_nil {p : Pair} (n : Nat) (h : p.ba = []) : p.move spec cfgA cfgB (.ba n) = p := by
+  simp [Pair.move, h]
+
+theorem Pair.move_ab_cons {p : Pair} (n : Nat) (h : p.ab ≠ []) :
+    p.move spec cfgA cfgB (.ab n) =
+      { p with b := (onNetworkBytes spec cfgB 0 p.b (p.ab.take (min (n + 1) p.ab.length))).1,
+               ab := p.ab.drop (min (n + 1) p.ab.length),
+               ba := p.ba ++ sendsOf (onNetworkBytes spec cfgB 0 p.b (p.ab.take (min (n + 1) p.ab.length))).2,
+               appB := p.appB ++ (onNetworkBytes spec cfgB 0 p.b (p.ab.take (min (n + 1) p.ab.length))).2.app,
+               recvB := p.recvB ++ p.ab.take (min (n + 1) p.ab.length) } := by
+  simp [Pair.move, h]
+
+theorem Pair.move_ba_cons {p : Pair} (n : Nat) (h : p.ba ≠ []) :
+    p.move spec cfgA cfgB (.ba n) =
+      { p with a := (onNetworkBytes spec cfgA 0 p.a (p.ba.take (min (n + 1) p.ba.length))).1,
+               ba := p.ba.drop (min (n + 1) p.ba.length),
+               ab := p.ab ++ sendsOf (onNetworkBytes spec cfgA 0 p.a (p.ba.take (min (n + 1) p.ba.length))).2,
+               appA := p.appA ++ (onNetworkBytes spec cfgA 0 p.a (p.ba.take (min (n + 1) p.ba.length))).2.app,
+               recvA := p.recvA ++ p.ba.take (min (n + 1) p.ba.length) } := by
+  simp [Pair.move, h]
+
+end Moves
+
+-- ---------------------------------------------------------------------------------------------
+-- the invariant of every schedule (end-of-stream moves included)
+-- ---------------------------------------------------------------------------------------------
+
+/-- `rA` / `rB`: the bytes each engine had received when it stopped processing (all of them unless it was closed) -/
+structure GI (spec : AbsSpec) (cfgA cfgB : Cfg) (p : Pair) (rA rB : Bytes) : Prop where
+  preA : rA <+: p.recvA
+  preB : rB <+: p.recvB
+  emA : p.recvB ++ p.ab = emitted spec cfgA rA
+  emB : p.recvA ++ p.ba = emitted spec cfgB rB
+  appA : p.appA = appOf spec cfgA rA
+  appB : p.appB = appOf spec cfgB rB
+  liveA : p.a.phase = .closed ∨ (rA = p.recvA ∧ p.a = stOf spec cfgA rA)
+  liveB : p.b.phase = .closed ∨ (rB = p.recvB ∧ p.b = stOf spec cfgB rB)
+
+/-- causal bound: nothing on the wire or received exceeds the transcripts `FA`, `FB` -/
+def Bd (FA FB : Bytes) (p : Pair) : Prop := p.recvA ++ p.ba <+: FB ∧ p.recvB ++ p.ab <+: FA
+
+section Inv
+variable {spec : AbsSpec} {cfgA cfgB : Cfg}
+
+theorem GI.start (hw : WellBehaved spec) : GI spec cfgA cfgB Pair.start [] [] := by
+  refine ⟨List.prefix_refl _, List.prefix_refl _, ?_, ?_, ?_, ?_, Or.inr ⟨rfl, ?_⟩, Or.inr ⟨rfl, ?_⟩⟩
+  · rw [emitted_nil hw]; rfl
+  · rw [emitted_nil hw]; rfl
+  · rw [appOf_nil hw]; rfl
+  · rw [appOf_nil hw]; rfl
+  · rw [stOf_nil hw]; rfl
+  · rw [stOf_nil hw]; rfl
+
+theorem GI.move (hw : WellBehaved spec) {FA FB : Bytes}
+    (hFA : emitted spec cfgA FB <+: FA) (hFB : emitted spec cfgB FA <+: FB)
+    {p : Pair} {rA rB : Bytes} (h : GI spec cfgA cfgB p rA rB) (hb : Bd FA FB p) (m : Move) :
+    ∃ rA' rB', GI spec cfgA cfgB (p.move spec cfgA cfgB m) rA' rB' ∧ Bd FA FB (p.move spec cfgA cfgB m) := by
+  cases m with
+  | ab n =>
+    by_cases hne : p.ab = []
+    · rw [Pair.move_ab_nil n hne]; exact ⟨rA, rB, h, hb⟩
+    · rw [Pair.move_ab_cons n hne]
+      generalize hk : min (n + 1) p.ab.length = k
+      have htd : p.recvB ++ List.take k p.ab ++ List.drop k p.ab = p.recvB ++ p.ab := by
+        rw [List.append_assoc, List.take_append_drop]
+      have hpre : p.recvB ++ List.take k p.ab <+: FA :=
+        List.IsPrefix.trans ((List.prefix_append_right_inj _).2 (take_prefix_self k p.ab)) hb.2
+      rcases h.liveB with hc | ⟨hr, hst⟩
+      · refine ⟨rA, rB, ⟨h.preA, List.IsPrefix.trans h.preB (List.prefix_append _ _), ?_, ?_, h.appA, ?_, h.liveA,
+          Or.inl ?_⟩, ?_, ?_⟩
+        · simp only; rw [htd]; exact h.emA
+        · simp only [onNetworkBytes_closed hc, sendsOf_empty, List.append_nil]; exact h.emB
+        · simp only [onNetworkBytes_closed hc, Out.app_nil_pair, List.append_nil]; exact h.appB
+        · simp only [onNetworkBytes_closed hc]; exact hc
+        · simp only [onNetworkBytes_closed hc, sendsOf_empty, List.append_nil]; exact hb.1
+        · simp only; rw [htd]; exact hb.2
+      · subst hr
+        have hemB : p.recvA ++ (p.ba ++ sendsOf (onNetworkBytes spec cfgB 0 p.b (List.take k p.ab)).2)
+            = emitted spec cfgB (p.recvB ++ List.take k p.ab) := by
+          rw [emitted_append hw, ← h.emB, hst, List.append_assoc]
+        refine ⟨rA, p.recvB ++ List.take k p.ab, ⟨h.preA, List.prefix_refl _, ?_, hemB, h.appA, ?_, h.liveA,
+          Or.inr ⟨rfl, ?_⟩⟩, ?_, ?_⟩
+        · simp only; rw [htd]; exact h.emA
+        · simp only; rw [appOf_append hw, ← h.appB, hst]
+        · simp only; rw [stOf_append hw, hst]
+        · simp only; rw [hemB]
+          exact List.IsPrefix.trans (emitted_mono' hw hpre) hFB
+        · simp only; rw [htd]; exact hb.2
+  | ba n =>
+    by_cases hne : p.ba = []
+    · rw [Pair.move_ba_nil n hne]; exact ⟨rA, rB, h, hb⟩
+    · rw [Pair.move_ba_cons n hne]
+      generalize hk : min (n + 1) p.ba.length = k
+      have htd : p.recvA ++ List.take k p.ba ++ List.drop k p.ba = p.recvA ++ p.ba := by
+        rw [List.append_assoc, List.take_append_drop]
+      have hpre : p.recvA ++ List.take k p.ba <+: FB :=
+        List.IsPrefix.trans ((List.prefix_append_right_inj _).2 (take_prefix_self k p.ba)) hb.1
+      rcases h.liveA with hc | ⟨hr, hst⟩
+      · refine ⟨rA, rB, ⟨List.IsPrefix.trans h.preA (List.prefix_append _ _), h.preB, ?_, ?_, ?_, h.appB,
+          Or.inl ?_, h.liveB⟩, ?_, ?_⟩
+        · simp only [onNetworkBytes_closed hc, sendsOf_empty, List.append_nil]; exact h.emA
+        · simp only; rw [htd]; exact h.emB
+        · simp only [onNetworkBytes_closed hc, Out.app_nil_pair, List.append_nil]; exact h.appA
+        · simp only [onNetworkBytes_closed hc]; exact hc
+        · simp only; rw [htd]; exact hb.1
+        · simp only [onNetworkBytes_closed hc, sendsOf_empty, List.append_nil]; exact hb.2
+      · subst hr
+        have hemA : p.recvB ++ (p.ab ++ sendsOf (onNetworkBytes spec cfgA 0 p.a (List.take k p.ba)).2)
+            = emitted spec cfgA (p.recvA ++ List.take k p.ba) := by
+          rw [emitted_append hw, ← h.emA, hst, List.append_assoc]
+        refine ⟨p.recvA ++ List.take k p.ba, rB, ⟨List.prefix_refl _, h.preB, hemA, ?_, ?_, h.appB,
+          Or.inr ⟨rfl, ?_⟩, h.liveB⟩, ?_, ?_⟩
+        · simp only; rw [htd]; exact h.emB
+        · simp only; rw [appOf_append hw, ← h.appA, hst]
+        · simp only; rw [stOf_append hw, hst]
+        · simp only; rw [htd]; exact hb.1
+        · simp only; rw [hemA]
+          exact List.IsPrefix.trans (emitted_mono' hw hpre) hFA
+  | eofA =>
+    simp only [Pair.move]
+    split
+    · exact ⟨rA, rB, ⟨h.preA, h.preB, h.emA, h.emB, h.appA, h.appB, Or.inl rfl, h.liveB⟩, hb⟩
+    · exact ⟨rA, rB, h, hb⟩
+  | eofB =>
+    simp only [Pair.move]
+    split
+    · exact ⟨rA, rB, ⟨h.preA, h.preB, h.emA, h.emB, h.appA, h.appB, h.liveA, Or.inl rfl⟩, hb⟩
+    · exact ⟨rA, rB, h, hb⟩
+
+theorem GI.run (hw : WellBehaved spec) {FA FB : Bytes}
+    (hFA : emitted spec cfgA FB <+: FA) (hFB : emitted spec cfgB FA <+: FB) (s : List Move) :
+    ∀ {p : Pair} {rA rB : Bytes}, GI spec cfgA cfgB p rA rB → Bd FA FB p →
+    ∃ rA' rB', GI spec cfgA cfgB (Pair.run spec cfgA cfgB p s) rA' rB' ∧ Bd FA FB (Pair.run spec cfgA cfgB p s) := by
+  induction s with
+  | nil => intro p rA rB h hb; exact ⟨rA, rB, h, hb⟩
+  | cons m ms ih =>
+    intro p rA rB h hb
+    obtain ⟨rA', rB', h', hb'⟩ := GI.move hw hFA hFB h hb m
+    exact ih h' hb'
+
+theorem Bd.start {FA FB : Bytes}
+    (hFA : emitted spec cfgA FB <+: FA) (hFB : emitted spec cfgB FA <+: FB) : Bd FA FB Pair.start :=
+  ⟨List.IsPrefix.trans (sig_prefix_emitted _) hFB, List.IsPrefix.trans (sig_prefix_emitted _) hFA⟩
+
+/-- every schedule from the start state satisfies the invariant and the causal bound -/
+theorem GI.of_start (hw : WellBehaved spec) {FA FB : Bytes}
+    (hFA : emitted spec cfgA FB <+: FA) (hFB : emitted spec cfgB FA <+: FB) (s : List Move) :
+    ∃ rA rB, GI spec cfgA cfgB (Pair.run spec cfgA cfgB Pair.start s) rA rB
+      ∧ Bd FA FB (Pair.run spec cfgA cfgB Pair.start s) :=
+  GI.run hw hFA hFB s (GI.start hw) (Bd.start hFA hFB)
+
+/-- without end-of-stream moves: both engines are exactly where their received bytes put them -/
+structure PSD (spec : AbsSpec) (cfgA cfgB : Cfg) (p : Pair) : Prop where
+  stA : p.a = stOf spec cfgA p.recvA
+  stB : p.b = stOf spec cfgB p.recvB
+  appA : p.appA = appOf spec cfgA p.recvA
+  appB : p.appB = appOf spec cfgB p.recvB
+  emA : p.recvB ++ p.ab = emitted spec cfgA p.recvA
+  emB : p.recvA ++ p.ba = emitted spec cfgB p.recvB
+
+theorem PSD.start (hw : WellBehaved spec) : PSD spec cfgA cfgB Pair.start := by
+  refine ⟨?_, ?_, ?_, ?_, ?_, ?_⟩
+  · show _ = stOf spec cfgA []; rw [stOf_nil hw]; rfl
+  · show _ = stOf spec cfgB []; rw [stOf_nil hw]; rfl
+  · show _ = appOf spec cfgA []; rw [appOf_nil hw]; rfl
+  · show _ = appOf spec cfgB []; rw [appOf_nil hw]; rfl
+  · show _ = emitted spec cfgA []; rw [emitted_nil hw]; rfl
+  · show _ = emitted spec cfgB []; rw [emitted_nil hw]; rfl
+
+theorem PSD.move (hw : WellBehaved spec) {p : Pair} (h : PSD spec cfgA cfgB p) (m : Move)
+    (hm : m ≠ .eofA ∧ m ≠ .eofB) : PSD spec cfgA cfgB (p.move spec cfgA cfgB m) := by
+  cases m with
+  | ab n =>
+    by_cases hne : p.ab = []
+    · rw [Pair.move_ab_nil n hne]; exact h
+    · rw [Pair.move_ab_cons n hne]
+      generalize min (n + 1) p.ab.length = k
+      have htd : p.recvB ++ List.take k p.ab ++ List.drop k p.ab = p.recvB ++ p.ab := by
+        rw [List.append_assoc, List.take_append_drop]
+      refine ⟨h.stA, ?_, h.appA, ?_, ?_, ?_⟩
+      · simp only; rw [stOf_append hw, ← h.stB]
+      · simp only; rw [appOf_append hw, ← h.appB, ← h.stB]
+      · simp only; rw [htd]; exact h.emA
+      · simp only; rw [emitted_append hw, ← h.emB, ← h.stB, List.append_assoc]
+  | ba n =>
+    by_cases hne : p.ba = []
+    · rw [Pair.move_ba_nil n hne]; exact h
+    · rw [Pair.move_ba_cons n hne]
+      generalize min (n + 1) p.ba.length = k
+      have htd : p.recvA ++ List.take k p.ba ++ List.drop k p.ba = p.recvA ++ p.ba := by
+        rw [List.append_assoc, List.take_append_drop]
+      refine ⟨?_, h.stB, ?_, h.appB, ?_, ?_⟩
+      · simp only; rw [stOf_append hw, ← h.stA]
+      · simp only; rw [appOf_append hw, ← h.appA, ← h.stA]
+      · simp only; rw [emitted_append hw, ← h.emA, ← h.stA, List.append_assoc]
+      · simp only; rw [htd]; exact h.emB
+  | eofA => exact absurd rfl hm.1
+  | eofB => exact absurd rfl hm.2
+
+theorem PSD.run (hw : WellBehaved spec) (s : List Move) (hne : ∀ m ∈ s, m ≠ .eofA ∧ m ≠ .eofB) :
+    ∀ {p : Pair}, PSD spec cfgA cfgB p → PSD spec cfgA cfgB (Pair.run spec cfgA cfgB p s) := by
+  induction s with
+  | nil => intro p h; exact h
+  | cons m ms ih =>
+    intro p h
+    exact ih (fun x hx => hne x (List.mem_cons_of_mem _ hx)) (PSD.move hw h m (hne m (List.mem_cons_self ..)))
+
+theorem PSD.of_start (hw : WellBehaved spec) (s : List Move) (hne : ∀ m ∈ s, m ≠ .eofA ∧ m ≠ .eofB) :
+    PSD spec cfgA cfgB (Pair.run spec cfgA cfgB Pair.start s) :=
+  PSD.run hw s hne (PSD.start hw)
+
+/-- two complete eof-free schedules deliver the same bytes -/
+theorem complete_recv_eq (hw : WellBehaved spec) (s1 s2 : List Move)
+    (hne1 : ∀ m ∈ s1, m ≠ .eofA ∧ m ≠ .eofB) (hne2 : ∀ m ∈ s2, m ≠ .eofA ∧ m ≠ .eofB)
+    (h1 : (Pair.run spec cfgA cfgB Pair.start s1).ab = [] ∧ (Pair.run spec cfgA cfgB Pair.start s1).ba = [])
+    (h2 : (Pair.run spec cfgA cfgB Pair.start s2).ab = [] ∧ (Pair.run spec cfgA cfgB Pair.start s2).ba = []) :
+    (Pair.run spec cfgA cfgB Pair.start s1).recvA = (Pair.run spec cfgA cfgB Pair.start s2).recvA
+    ∧ (Pair.run spec cfgA cfgB Pair.start s1).recvB = (Pair.run spec cfgA cfgB Pair.start s2).recvB := by
+  have q1 := PSD.of_start (cfgA := cfgA) (cfgB := cfgB) hw s1 hne1
+  have q2 := PSD.of_start (cfgA := cfgA) (cfgB := cfgB) hw s2 hne2
+  have e1A := q1.emA; have e1B := q1.emB; have e2A := q2.emA; have e2B := q2.emB
+  rw [h1.1, List.append_nil] at e1A
+  rw [h1.2, List.append_nil] at e1B
+  rw [h2.1, List.append_nil] at e2A
+  rw [h2.2, List.append_nil] at e2B
+  -- schedule 1 stays below the fixpoint of schedule 2, and conversely
+  obtain ⟨_, _, -, b12⟩ := GI.of_start (cfgA := cfgA) (cfgB := cfgB) hw
+    (FA := (Pair.run spec cfgA cfgB Pair.start s2).recvB) (FB := (Pair.run spec cfgA cfgB Pair.start s2).recvA)
+    (by rw [← e2A]; exact List.prefix_refl _) (by rw [← e2B]; exact List.prefix_refl _) s1
+  obtain ⟨_, _, -, b21⟩ := GI.of_start (cfgA := cfgA) (cfgB := cfgB) hw
+    (FA := (Pair.run spec cfgA cfgB Pair.start s1).recvB) (FB := (Pair.run spec cfgA cfgB Pair.start s1).recvA)
+    (by rw [← e1A]; exact List.prefix_refl _) (by rw [← e1B]; exact List.prefix_refl _) s2
+  unfold Bd at b12 b21
+  rw [h1.1, h1.2, List.append_nil, List.append_nil] at b12
+  rw [h2.1, h2.2, List.append_nil, List.append_nil] at b21
+  exact ⟨prefix_antisymm' b12.1 b21.1, prefix_antisymm' b12.2 b21.2⟩
+
+end Inv
+
+-- ---------------------------------------------------------------------------------------------
+-- single steps of the handshake on well-formed peer bytes
+-- ---------------------------------------------------------------------------------------------
+
+section Steps
+variable {spec : AbsSpec} {cfg : Cfg}
+
+/-- greeting-phase states -/
+def gs (rs : Bool) (v : Option Version) (acc : Bytes) : Eng := { acc := acc, revisionSent := rs, version := v }
+
+theorem init_eq_gs : Eng.init = gs false none [] := rfl
+
+theorem addAcc_gs (rs v acc d) : addAcc (gs rs v acc) d = gs rs v (acc ++ d) := rfl
+
+theorem step_g1 (t : Nat) (r : Bytes) :
+    step spec cfg t (gs false none (Gen.SIGNATURE ++ r))
+      = some (gs true none (Gen.SIGNATURE ++ r), { net := [sendAct [Gen.V3_REVISION]] }) := by
+  simp [step, gs, Gen.SIGNATURE, Gen.SIGNATURE_LENGTH, Gen.sigFirst, Gen.sigLast]
+
+theorem step_g2_none (t : Nat) : step spec cfg t (gs true none Gen.SIGNATURE) = none := by
+  simp [step, gs, Gen.SIGNATURE, Gen.REVISION_OFFSET]
+
+theorem step_g2 (t : Nat) (r : Bytes) :
+    step spec cfg t (gs true none (Gen.SIGNATURE ++ Gen.V3_REVISION :: r))
+      = some (gs true (some .v3) (Gen.SIGNATURE ++ Gen.V3_REVISION :: r), { net := [sendAct (v3Tail cfg)] }) := by
+  simp [step, gs, Gen.SIGNATURE, Gen.REVISION_OFFSET, Gen.V3_REVISION]
+
+theorem step_g3_none (t : Nat) (acc : Bytes) (h : acc.length < 64) :
+    step spec cfg t (gs true (some .v3) acc) = none := by
+  simp [step, gs, Gen.GREETING_LENGTH, h]
+
+def tailOf (k : MechKind) (srv : Bool) : Bytes :=
+  Gen.GREETING_VERSION_MINOR_BYTE :: mechNameBytes k ++ [if srv then 1 else 0] ++ List.replicate Gen.PADDING_LENGTH 0
+def greetOf (k : MechKind) (srv : Bool) : Bytes := Gen.SIGNATURE ++ Gen.V3_REVISION :: tailOf k srv
+theorem greetOf_length (k : MechKind) (srv : Bool) : (greetOf k srv).length = 64 := by
+  cases k <;> rfl
+theorem decodeGreeting_greetOf (k : MechKind) (srv : Bool) :
+    decodeGreeting (greetOf k srv) = some { mechanism := mechNameBytes k, asServer := srv } := by
+  cases k <;> cases srv <;> decide
+theorem find_known (k : MechKind) :
+    Gen.knownMechanisms.find? (fun k' => mechNameBytes k' == mechNameBytes k) = some k := by
+  cases k <;> decide
+
+/-- security-phase states of the PLAIN mechanism -/
+def secS (st : PlainState) (acc : Bytes) : Eng :=
+  { phase := .security, acc := acc, revisionSent := true, version := some .v3, mech := .plain st,
+    gNegotiated := some .plain }
+
+theorem step_g3_err (t : Nat) (k : MechKind) (srv : Bool) (r : Bytes) (e : ErrClass)
+    (hneg : negotiate spec cfg { mechanism := mechNameBytes k, asServer := srv } = .error e) :
+    step spec cfg t (gs true (some .v3) (greetOf k srv ++ r)) = some (fail (gs true (some .v3) r) e) := by
+  have hl := greetOf_length k srv
+  have ht : (greetOf k srv ++ r).take 64 = greetOf k srv := List.take_left' hl
+  have hd : (greetOf k srv ++ r).drop 64 = r := List.drop_left' hl
+  simp only [step, gs, Gen.GREETING_LENGTH, ht, hd, decodeGreeting_greetOf, hneg]
+  simp [hl]
+
+theorem step_g3_sec (t : Nat) (k : MechKind) (srv : Bool) (r : Bytes) (m : Mech)
+    (hneg : negotiate spec cfg { mechanism := mechNameBytes k, asServer := srv } = .ok m)
+    (hst : mechStatus spec cfg m ≠ .ready) :
+    step spec cfg t (gs true (some .v3) (greetOf k srv ++ r))
+      = some ({ gs true (some .v3) r with mech := m, gNegotiated := some (mechKindOf m), phase := .security }, {}) := by
+  have hl := greetOf_length k srv
+  have ht : (greetOf k srv ++ r).take 64 = greetOf k srv := List.take_left' hl
+  have hd : (greetOf k srv ++ r).drop 64 = r := List.drop_left' hl
+  simp only [step, gs, Gen.GREETING_LENGTH, ht, hd, decodeGreeting_greetOf, hneg]
+  simp [hl, hst]
+
+theorem negotiate_disabled (k : MechKind) (srv : Bool) (h : mechEnabled cfg k = false) :
+    negotiate spec cfg { mechanism := mechNameBytes k, asServer := srv } = .error .sec := by
+  simp [negotiate, find_known, h]
+
+theorem negotiate_null (srv : Bool) (h : cfg.securityEnabled = false) :
+    negotiate spec cfg { mechanism := mechNameBytes .null, asServer := srv } = .ok .null := by
+  simp [negotiate, find_known, mechEnabled, h]
+
+theorem negotiate_plain (srv : Bool) (h : cfg.usePlain = true) :
+    negotiate spec cfg { mechanism := mechNameBytes .plain, asServer := srv }
+      = .ok (.plain (if cfg.isServer then .serverExpectHello else .clientSendHello)) := by
+  simp [negotiate, find_known, mechEnabled, h]
+
+theorem step_g3_mismatch (t : Nat) (k : MechKind) (srv : Bool) (r : Bytes) (h : mechEnabled cfg k = false) :
+    step spec cfg t (gs true (some .v3) (greetOf k srv ++ r)) = some (fail (gs true (some .v3) r) .sec) :=
+  step_g3_err t k srv r _ (negotiate_disabled k srv h)
+
+theorem step_g3_plain_srv (t : Nat) (srv : Bool) (r : Bytes) (h : cfg.usePlain = true) (hs : cfg.isServer = true) :
+    step spec cfg t (gs true (some .v3) (greetOf .plain srv ++ r)) = some (secS .serverExpectHello r, {}) := by
+  rw [step_g3_sec t _ srv r _ (negotiate_plain srv h) (by simp [hs, mechStatus])]
+  simp [hs, secS, gs, mechKindOf]
+
+theorem step_g3_plain_cli (t : Nat) (srv : Bool) (r : Bytes) (h : cfg.usePlain = true) (hs : cfg.isServer = false) :
+    step spec cfg t (gs true (some .v3) (greetOf .plain srv ++ r)) = some (secS .clientSendHello r, {}) := by
+  rw [step_g3_sec t _ srv r _ (negotiate_plain srv h) (by simp [hs, mechStatus])]
+  simp [hs, secS, gs, mechKindOf]
+
+def helloTok (cfg : Cfg) : Bytes :=
+  lenPrefixed Gen.plainHello ++ helloBody (cfg.plainUser.getD []) (cfg.plainPass.getD [])
+
+def helloBytes (cfg : Cfg) : Bytes := encodeCodec (cmdFrame (helloTok cfg))
+
+theorem step_sec_cli_hello (t : Nat) (r : Bytes) :
+    step spec cfg t (secS .clientSendHello r)
+      = some (secS .clientExpectWelcome r, { net := [sendAct (helloBytes cfg)] }) := by
+  simp [step, secS, produceToken, helloBytes, helloTok]
+
+theorem step_sec_cli_wait (t : Nat) : step spec cfg t (secS .clientExpectWelcome []) = none := by
+  simp [step, secS, produceToken, mechStatus, decodeBuffer]
+
+theorem step_sec_srv_wait (t : Nat) : step spec cfg t (secS .serverExpectHello []) = none := by
+  simp [step, secS, produceToken, mechStatus, decodeBuffer]
+
+theorem parseHello_helloBody (u p : Bytes) (hu : u.length ≤ 255) (hp : p.length ≤ 255) :
+    parseHello (helloBody u p) = some (u, p) := by
+  have h1 : List.take 255 u = u := List.take_of_length_le hu
+  have h2 : List.take 255 p = p := List.take_of_length_le hp
+  simp only [helloBody, h1, h2, parseHello, List.cons_append, List.length_cons, List.length_append,
+    toNat_ofNat_small _ hu, toNat_ofNat_small _ hp, List.take_left', List.drop_left']
+  rw [if_neg (by omega), if_neg (by omega)]
+  simp
+
+theorem step_sec_srv_bad (t : Nat) (peer : Cfg) (r : Bytes) (hs : cfg.isServer = true) (hmax : cfg.maxMsgSize < 0)
+    (hu : (peer.plainUser.getD []).length ≤ 255) (hp : (peer.plainPass.getD []).length ≤ 255)
+    (hwrong : cfg.plainUser ≠ some (peer.plainUser.getD []) ∨ cfg.plainPass ≠ some (peer.plainPass.getD [])) :
+    step spec cfg t (secS .serverExpectHello (helloBytes peer ++ r))
+      = some (fail (secS .serverExpectHello r) .auth) := by
+  have hlen : (helloTok peer).length ≤ 600 := by
+    simp [helloTok, lenPrefixed, helloBody, Gen.plainHello]; omega
+  have hdec : decodeBuffer cfg.maxMsgSize (helloBytes peer ++ r) = .frame (cmdFrame (helloTok peer)) r := by
+    apply decodeBuffer_encode'
+    · simp only [cmdFrame, two64]; omega
+    · exact Or.inl hmax
+  have hcred : (cfg.plainUser == some (peer.plainUser.getD []) && cfg.plainPass == some (peer.plainPass.getD [])) = false := by
+    rcases hwrong with h | h
+    · simp [h]
+    · simp [h]
+  have hpt : processToken spec cfg (.plain .serverExpectHello) (helloTok peer) = .error .auth := by
+    simp only [helloTok, lenPrefixed, Gen.plainHello, processToken, List.cons_append]
+    simp [hs, parseHello_helloBody _ _ hu hp, hcred]
+  simp only [step, secS, produceToken, mechStatus, hdec, cmdFrame, hpt]
+  simp [fail]
+
+def rdy (acc : Bytes) : Eng :=
+  { phase := .ready, acc := acc, revisionSent := true, version := some .v3, mech := .null, gNegotiated := some .null }
+
+theorem step_g3_null (t : Nat) (srv : Bool) (r : Bytes) (h : cfg.securityEnabled = false) :
+    step spec cfg t (gs true (some .v3) (greetOf .null srv ++ r))
+      = some (rdy r, { net := if cfg.isServer then [] else [sendAct (readyBytes cfg)] }) := by
+  have hl := greetOf_length .null srv
+  have ht : (greetOf .null srv ++ r).take 64 = greetOf .null srv := by
+    rw [List.take_left' hl]
+  have hd : (greetOf .null srv ++ r).drop 64 = r := by
+    rw [List.drop_left' hl]
+  simp only [step, gs, Gen.GREETING_LENGTH, ht, hd, decodeGreeting_greetOf, negotiate, find_known]
+  simp [hl, mechEnabled, h, mechStatus, enterReady, rdy, mechKindOf]
+
+theorem ofBe_be32 (n : Nat) (h : n < 4294967296) : ofBe (be32 n) = n := by
+  simp only [ofBe, be32, List.foldl_cons, List.foldl_nil, UInt8.toNat_ofNat']
+  omega
+
+theorem parseProps_encode : ∀ (ps : Props) (fuel : Nat), ps.length ≤ fuel →
+    (∀ p ∈ ps, p.1.length ≤ 255 ∧ validUtf8 p.1 = true ∧ p.2.length < 4294967296) →
+    parseProps fuel (encodeProps ps) = some ps := by
+  intro ps
+  induction ps with
+  | nil => intro fuel _ _; cases fuel <;> rfl
+  | cons p ps ih =>
+    intro fuel hf hp
+    obtain ⟨n, v⟩ := p
+    obtain ⟨hn, hu, hv⟩ := hp (n, v) (List.mem_cons_self ..)
+    simp only at hn hu hv
+    cases fuel with
+    | zero => simp at hf
+    | succ fuel =>
+      have ih' := ih fuel (by simpa using hf) (fun q hq => hp q (List.mem_cons_of_mem _ hq))
+      have hnl : (UInt8.ofNat n.length).toNat = n.length := toNat_ofNat_small _ hn
+      simp only [encodeProps, if_neg (show ¬ n.length > 255 by omega), List.cons_append, List.append_assoc,
+        parseProps, hnl, List.take_left', List.drop_left', hu]
+      have h4 : (be32 v.length).length = 4 := rfl
+      have ht : List.take 4 (be32 v.length ++ (v ++ encodeProps ps)) = be32 v.length := List.take_left' h4
+      have hd : List.drop 4 (be32 v.length ++ (v ++ encodeProps ps)) = v ++ encodeProps ps := List.drop_left' h4
+      simp only [ht, hd, ofBe_be32 _ hv, List.take_left', List.drop_left', ih']
+      simp [be32]
+
+theorem ofBytes_bytes (n : SockName) : SockName.ofBytes n.bytes = n := by
+  cases n <;> decide
+
+theorem localReadyProps_ok (peer : Cfg) (h : peer.routingId.length ≤ 255) :
+    ∀ p ∈ localReadyProps peer, p.1.length ≤ 255 ∧ validUtf8 p.1 = true ∧ p.2.length < 4294967296 := by
+  intro p hp
+  simp only [localReadyProps, List.mem_append, List.mem_singleton] at hp
+  rcases hp with hp | rfl
+  · split at hp
+    · simp at hp
+    · simp only [List.mem_singleton] at hp
+      subst hp
+      refine ⟨(by decide : keyIdentity.length ≤ 255), (by decide : validUtf8 keyIdentity = true), ?_⟩
+      simp only; omega
+  · refine ⟨(by decide : keySocketType.length ≤ 255), (by decide : validUtf8 keySocketType = true), ?_⟩
+    show peer.sockType.bytes.length < 4294967296
+    cases peer.sockType <;> decide
+
+theorem lookup_sockType (peer : Cfg) :
+    lookupLast keySocketType (localReadyProps peer) = some peer.sockType.bytes := by
+  simp only [localReadyProps]
+  split <;> simp [lookupLast]
+
+theorem lookup_identity (peer : Cfg) :
+    lookupLast keyIdentity (localReadyProps peer)
+      = if peer.routingId.isEmpty then none else some peer.routingId := by
+  simp only [localReadyProps]
+  have : (keySocketType == keyIdentity) = false := by decide
+  split <;> simp [lookupLast, this]
+
+def readyBody (peer : Cfg) : Bytes :=
+  UInt8.ofNat Gen.readyName.length :: Gen.readyName ++ encodeProps (localReadyProps peer)
+
+theorem readyBytes_eq (peer : Cfg) : readyBytes peer = encodeCodec (cmdFrame (readyBody peer)) := rfl
+
+theorem readyBody_length (peer : Cfg) : (readyBody peer).length = 6 + (encodeProps (localReadyProps peer)).length := by
+  simp [readyBody, Gen.readyName]; omega
+
+theorem localReadyProps_length (peer : Cfg) : (localReadyProps peer).length ≤ 2 := by
+  simp only [localReadyProps]; split <;> simp
+
+theorem parseCmd_readyBody (peer : Cfg) (h : peer.routingId.length ≤ 255) :
+    parseCmd (readyBody peer) = some (.ready (localReadyProps peer)) := by
+  have hl := readyBody_length peer
+  have hp : parseProps ((readyBody peer).length + 1) (encodeProps (localReadyProps peer))
+      = some (localReadyProps peer) :=
+    parseProps_encode _ _ (by have := localReadyProps_length peer; omega) (localReadyProps_ok peer h)
+  have hd : (readyBody peer).drop 6 = encodeProps (localReadyProps peer) := by
+    simp [readyBody, Gen.readyName]
+  have h1 : Gen.cmdPing.isPrefixOf (readyBody peer) = false := by
+    simp [readyBody, Gen.readyName, Gen.cmdPing, List.isPrefixOf]
+  have h2 : Gen.cmdPong.isPrefixOf (readyBody peer) = false := by
+    simp [readyBody, Gen.readyName, Gen.cmdPong, List.isPrefixOf]
+  have h3 : Gen.cmdReady.isPrefixOf (readyBody peer) = true := by
+    simp [readyBody, Gen.readyName, Gen.cmdReady, List.isPrefixOf]
+  simp only [parseCmd, h1, h2, h3, Gen.readyPropsOffset, hd, hp, Gen.cmdReadyMinLen]
+  simp [hl]
+
+def dat (acc : Bytes) : Eng :=
+  { phase := .data, acc := acc, revisionSent := true, version := some .v3, mech := .null, gNegotiated := some .null }
+
+theorem decode_ready (peer : Cfg) (r : Bytes) (hid : peer.routingId.length ≤ 255)
+    (hadm : cfg.maxMsgSize < 0 ∨ 6 + (encodeProps (localReadyProps peer)).length ≤ cfg.maxMsgSize.toNat) :
+    decodeBuffer cfg.maxMsgSize (readyBytes peer ++ r) = .frame (cmdFrame (readyBody peer)) r := by
+  rw [readyBytes_eq]
+  have hl := readyBody_length peer
+  have hb : (encodeProps (localReadyProps peer)).length ≤ 300 := by
+    simp only [localReadyProps]
+    split
+    · simp [encodeProps, keySocketType, ascii, be32]
+      cases peer.sockType <;> simp [SockName.bytes, ascii]
+    · simp [encodeProps, keySocketType, keyIdentity, ascii, be32]
+      cases peer.sockType <;> simp [SockName.bytes, ascii] <;> omega
+  apply decodeBuffer_encode'
+  · simp only [cmdFrame, hl, two64]; omega
+  · simp only [cmdFrame, hl]; exact hadm
+
+theorem step_ready_ok (peer : Cfg) (r : Bytes) (hid : peer.routingId.length ≤ 255)
+    (hadm : cfg.maxMsgSize < 0 ∨ 6 + (encodeProps (localReadyProps peer)).length ≤ cfg.maxMsgSize.toNat)
+    (hc : typesCompatible cfg.sockType peer.sockType = true) :
+    step spec cfg 0 (rdy (readyBytes peer ++ r))
+      = some (dat r, { net := (if cfg.isServer then [sendAct (readyBytes cfg)] else []) ++ corkOn cfg,
+                       app := [handshakeOf peer] }) := by
+  simp only [step, rdy, decode_ready peer r hid hadm, cmdFrame, parseCmd_readyBody peer hid,
+    lookup_sockType, lookup_identity, ofBytes_bytes, hc, handshakeOf, dat]
+  simp
+
+theorem step_ready_bad (peer : Cfg) (r : Bytes) (hid : peer.routingId.length ≤ 255)
+    (hadm : cfg.maxMsgSize < 0 ∨ 6 + (encodeProps (localReadyProps peer)).length ≤ cfg.maxMsgSize.toNat)
+    (hc : typesCompatible cfg.sockType peer.sockType = false) :
+    step spec cfg 0 (rdy (readyBytes peer ++ r)) = some (fail (rdy r) .proto) := by
+  simp only [step, rdy, decode_ready peer r hid hadm, cmdFrame, parseCmd_readyBody peer hid,
+    lookup_sockType, ofBytes_bytes, hc, Gen.v3ValidatesSocketType]
+  simp
+
+theorem step_ready_nil : step spec cfg 0 (rdy []) = none := by
+  simp [step, rdy, decodeBuffer]
+
+theorem step_dat_nil : step spec cfg 0 (dat []) = none := by
+  simp [step, dat, decodeBuffer]
+
+end Steps
+
+-- ---------------------------------------------------------------------------------------------
+-- reads: what one `onNetworkBytes` does at each stage of the handshake
+-- ---------------------------------------------------------------------------------------------
+
+section Stages
+variable {spec : AbsSpec} {cfg : Cfg}
+
+theorem onNB_step1 (hw : WellBehaved spec) {s : Eng} {d : Bytes} {s1 : Eng} {o1 : Out}
+    (h1 : step spec cfg 0 (addAcc s d) = some (s1, o1)) (h2 : step spec cfg 0 s1 = none) :
+    onNetworkBytes spec cfg 0 s d = (s1, o1) := by
+  rw [onNetworkBytes_eq hw, runQ_some hw h1, runQ_none h2]; simp
+
+theorem onNB_step2 (hw : WellBehaved spec) {s : Eng} {d : Bytes} {s1 s2 : Eng} {o1 o2 : Out}
+    (h1 : step spec cfg 0 (addAcc s d) = some (s1, o1)) (h2 : step spec cfg 0 s1 = some (s2, o2))
+    (h3 : step spec cfg 0 s2 = none) :
+    onNetworkBytes spec cfg 0 s d = (s2, o1 ++ o2) := by
+  rw [onNetworkBytes_eq hw, runQ_some hw h1, runQ_some hw h2, runQ_none h3]; simp
+
+theorem v3Tail_eq (cfg : Cfg) : v3Tail cfg = tailOf (localMech cfg) cfg.isServer := rfl
+
+/-- the greeting `cfg` puts on the wire -/
+def ownGreet (cfg : Cfg) : Bytes := greetOf (localMech cfg) cfg.isServer
+
+/-- the state after the peer's signature and revision byte -/
+def g2 : Eng := gs true (some .v3) (Gen.SIGNATURE ++ [Gen.V3_REVISION])
+
+theorem greetOf_split (k : MechKind) (srv : Bool) :
+    greetOf k srv = (Gen.SIGNATURE ++ [Gen.V3_REVISION]) ++ tailOf k srv := by
+  simp [greetOf]
+
+theorem read_sig (hw : WellBehaved spec) :
+    onNetworkBytes spec cfg 0 Eng.init Gen.SIGNATURE
+      = (gs true none Gen.SIGNATURE, { net := [sendAct [Gen.V3_REVISION]] }) := by
+  apply onNB_step1 hw (s1 := gs true none Gen.SIGNATURE)
+  · have := step_g1 (spec := spec) (cfg := cfg) 0 []
+    simpa [init_eq_gs, addAcc_gs] using this
+  · exact step_g2_none 0
+
+theorem read_rev (hw : WellBehaved spec) :
+    onNetworkBytes spec cfg 0 (gs true none Gen.SIGNATURE) [Gen.V3_REVISION]
+      = (g2, { net := [sendAct (v3Tail cfg)] }) := by
+  apply onNB_step1 hw (s1 := g2)
+  · exact step_g2 0 []
+  · exact step_g3_none 0 _ (by decide)
+
+theorem read_sig_rev (hw : WellBehaved spec) :
+    onNetworkBytes spec cfg 0 Eng.init (Gen.SIGNATURE ++ [Gen.V3_REVISION])
+      = (g2, { net := [sendAct [Gen.V3_REVISION], sendAct (v3Tail cfg)] }) := by
+  rw [onNetworkBytes_append hw, read_sig hw, read_rev hw]
+  rfl
+
+theorem sendsOf_two (a b : Bytes) : sendsOf { net := [sendAct a, sendAct b] } = a ++ b := by
+  simp [sendsOf, sendAct]
+
+theorem sendsOf_one (a : Bytes) : sendsOf { net := [sendAct a] } = a := by
+  simp [sendsOf, sendAct]
+
+theorem sendsOf_app_only (l : List AppAct) : sendsOf { app := l } = [] := rfl
+
+theorem emitted_sig (hw : WellBehaved spec) :
+    emitted spec cfg Gen.SIGNATURE = Gen.SIGNATURE ++ [Gen.V3_REVISION] := by
+  simp only [emitted, read_sig hw, sendsOf_one]
+
+theorem emitted_sig_rev (hw : WellBehaved spec) :
+    emitted spec cfg (Gen.SIGNATURE ++ [Gen.V3_REVISION]) = ownGreet cfg := by
+  simp only [emitted, read_sig_rev hw, sendsOf_two, v3Tail_eq, ownGreet, greetOf]
+  simp
+
+theorem stOf_sig_rev (hw : WellBehaved spec) : stOf spec cfg (Gen.SIGNATURE ++ [Gen.V3_REVISION]) = g2 := by
+  simp only [stOf, read_sig_rev hw]
+
+theorem appOf_sig_rev (hw : WellBehaved spec) : appOf spec cfg (Gen.SIGNATURE ++ [Gen.V3_REVISION]) = [] := by
+  simp only [appOf, read_sig_rev hw]
+
+/-- every endpoint that has received everything the other emitted, and conversely, has the other's full greeting -/
+theorem fix_greet (hw : WellBehaved spec) {cfgA cfgB : Cfg} {x y : Bytes}
+    (hx : x = emitted spec cfgB y) (hy : y = emitted spec cfgA x) :
+    ownGreet cfgB <+: x ∧ ownGreet cfgA <+: y := by
+  have sx : Gen.SIGNATURE <+: x := hx ▸ sig_prefix_emitted _
+  have sy : Gen.SIGNATURE <+: y := hy ▸ sig_prefix_emitted _
+  have rx : Gen.SIGNATURE ++ [Gen.V3_REVISION] <+: x := by
+    have := emitted_mono' (cfg := cfgB) hw sy
+    rwa [emitted_sig hw, ← hx] at this
+  have ry : Gen.SIGNATURE ++ [Gen.V3_REVISION] <+: y := by
+    have := emitted_mono' (cfg := cfgA) hw sx
+    rwa [emitted_sig hw, ← hy] at this
+  constructor
+  · have := emitted_mono' (cfg := cfgB) hw ry
+    rwa [emitted_sig_rev hw, ← hx] at this
+  · have := emitted_mono' (cfg := cfgA) hw rx
+    rwa [emitted_sig_rev hw, ← hy] at this
+
+/-- splitting a read at the end of the peer's signature + revision -/
+theorem read_greet_split (hw : WellBehaved spec) (k : MechKind) (srv : Bool) (r : Bytes) :
+    onNetworkBytes spec cfg 0 Eng.init (greetOf k srv ++ r)
+      = ((onNetworkBytes spec cfg 0 g2 (tailOf k srv ++ r)).1,
+         { net := [sendAct [Gen.V3_REVISION], sendAct (v3Tail cfg)] }
+           ++ (onNetworkBytes spec cfg 0 g2 (tailOf k srv ++ r)).2) := by
+  rw [greetOf_split, List.append_assoc, onNetworkBytes_append hw, read_sig_rev hw]
+
+theorem addAcc_g2 (k : MechKind) (srv : Bool) (r : Bytes) :
+    addAcc g2 (tailOf k srv ++ r) = gs true (some .v3) (greetOf k srv ++ r) := by
+  simp [g2, addAcc_gs, greetOf]
+
+-- NULL ------------------------------------------------------------------------------------------
+
+theorem read_tail_null (hw : WellBehaved spec) (srv : Bool) (h : cfg.securityEnabled = false) :
+    onNetworkBytes spec cfg 0 g2 (tailOf .null srv)
+      = (rdy [], { net := if cfg.isServer then [] else [sendAct (readyBytes cfg)] }) := by
+  apply onNB_step1 hw (s1 := rdy [])
+  · have := addAcc_g2 .null srv []
+    simp only [List.append_nil] at this
+    rw [this]
+    have := step_g3_null (spec := spec) (cfg := cfg) 0 srv [] h
+    rwa [List.append_nil] at this
+  · exact step_ready_nil
+
+theorem read_ready_ok (hw : WellBehaved spec) (peer : Cfg) (hid : peer.routingId.length ≤ 255)
+    (hadm : cfg.maxMsgSize < 0 ∨ 6 + (encodeProps (localReadyProps peer)).length ≤ cfg.maxMsgSize.toNat)
+    (hc : typesCompatible cfg.sockType peer.sockType = true) :
+    onNetworkBytes spec cfg 0 (rdy []) (readyBytes peer)
+      = (dat [], { net := (if cfg.isServer then [sendAct (readyBytes cfg)] else []) ++ corkOn cfg,
+                   app := [handshakeOf peer] }) := by
+  apply onNB_step1 hw (s1 := dat [])
+  · have := step_ready_ok (spec := spec) (cfg := cfg) peer [] hid hadm hc
+    rw [List.append_nil] at this
+    exact this
+  · exact step_dat_nil
+
+theorem read_ready_bad (hw : WellBehaved spec) (peer : Cfg) (hid : peer.routingId.length ≤ 255)
+    (hadm : cfg.maxMsgSize < 0 ∨ 6 + (encodeProps (localReadyProps peer)).length ≤ cfg.maxMsgSize.toNat)
+    (hc : typesCompatible cfg.sockType peer.sockType = false) :
+    onNetworkBytes spec cfg 0 (rdy []) (readyBytes peer) = fail (rdy []) .proto := by
+  apply onNB_step1 hw
+  · have := step_ready_bad (spec := spec) (cfg := cfg) peer [] hid hadm hc
+    rw [List.append_nil] at this
+    exact this
+  · exact step_closed rfl
+
+end Stages
+
+-- ---------------------------------------------------------------------------------------------
+-- NULL endpoints: responses to the peer's greeting and READY
+-- ---------------------------------------------------------------------------------------------
+
+section Null
+variable {spec : AbsSpec} {cfg : Cfg}
+
+theorem localMech_null (h : NullCfg cfg) : localMech cfg = .null := by
+  obtain ⟨_, h2, h3, h4⟩ := h
+  simp [localMech, Gen.localMechPriority, mechEnabled, h2, h3, h4]
+
+theorem localMech_plain (h : PlainCfg cfg) : localMech cfg = .plain := by
+  obtain ⟨_, h2, _, _⟩ := h
+  simp [localMech, Gen.localMechPriority, mechEnabled, h2]
+
+theorem ownGreet_null (h : NullCfg cfg) : ownGreet cfg = greetOf .null cfg.isServer := by
+  rw [ownGreet, localMech_null h]
+
+theorem ownGreet_plain (h : PlainCfg cfg) : ownGreet cfg = greetOf .plain cfg.isServer := by
+  rw [ownGreet, localMech_plain h]
+
+theorem sendsOf_greet_pref (cfg : Cfg) (o : Out) :
+    Gen.SIGNATURE ++ sendsOf (({ net := [sendAct [Gen.V3_REVISION], sendAct (v3Tail cfg)] } : Out) ++ o)
+      = ownGreet cfg ++ sendsOf o := by
+  rw [sendsOf_append, sendsOf_two, v3Tail_eq, ownGreet, greetOf]
+  simp
+
+/-- everything about the response to `greeting ++ r` in terms of the response of `g2` to `tail ++ r` -/
+theorem emitted_greet_split (hw : WellBehaved spec) (k : MechKind) (srv : Bool) (r : Bytes) :
+    emitted spec cfg (greetOf k srv ++ r)
+      = ownGreet cfg ++ sendsOf (onNetworkBytes spec cfg 0 g2 (tailOf k srv ++ r)).2 := by
+  rw [emitted, read_greet_split hw, sendsOf_greet_pref]
+
+theorem stOf_greet_split (hw : WellBehaved spec) (k : MechKind) (srv : Bool) (r : Bytes) :
+    stOf spec cfg (greetOf k srv ++ r) = (onNetworkBytes spec cfg 0 g2 (tailOf k srv ++ r)).1 := by
+  rw [stOf, read_greet_split hw]
+
+theorem appOf_greet_split (hw : WellBehaved spec) (k : MechKind) (srv : Bool) (r : Bytes) :
+    appOf spec cfg (greetOf k srv ++ r) = (onNetworkBytes spec cfg 0 g2 (tailOf k srv ++ r)).2.app := by
+  rw [appOf, read_greet_split hw]
+  rfl
+
+theorem stOf_greet_null (hw : WellBehaved spec) (srv : Bool) (h : NullCfg cfg) :
+    stOf spec cfg (greetOf .null srv) = rdy [] := by
+  have := stOf_greet_split (spec := spec) (cfg := cfg) hw .null srv []
+  rw [List.append_nil, List.append_nil, read_tail_null hw srv h.1] at this
+  exact this
+
+theorem emitted_greet_null (hw : WellBehaved spec) (srv : Bool) (h : NullCfg cfg) :
+    emitted spec cfg (greetOf .null srv) = ownGreet cfg ++ (if cfg.isServer then [] else readyBytes cfg) := by
+  have := emitted_greet_split (spec := spec) (cfg := cfg) hw .null srv []
+  rw [List.append_nil, List.append_nil, read_tail_null hw srv h.1] at this
+  rw [this]
+  cases cfg.isServer <;> simp [sendsOf, sendAct]
+
+theorem appOf_greet_null (hw : WellBehaved spec) (srv : Bool) (h : NullCfg cfg) :
+    appOf spec cfg (greetOf .null srv) = [] := by
+  have := appOf_greet_split (spec := spec) (cfg := cfg) hw .null srv []
+  rw [List.append_nil, List.append_nil, read_tail_null hw srv h.1] at this
+  exact this
+
+/-- the full transcript of a NULL endpoint in a successful handshake -/
+def nullFull (cfg : Cfg) : Bytes := ownGreet cfg ++ readyBytes cfg
+
+def Adm (sender receiver : Cfg) : Prop :=
+  sender.routingId.length ≤ 255 ∧
+  (receiver.maxMsgSize < 0 ∨ 6 + (encodeProps (localReadyProps sender)).length ≤ receiver.maxMsgSize.toNat)
+
+theorem sendsOf_ready_out (cfg : Cfg) (l : List AppAct) :
+    sendsOf { net := (if cfg.isServer then [sendAct (readyBytes cfg)] else []) ++ corkOn cfg, app := l }
+      = if cfg.isServer then readyBytes cfg else [] := by
+  have hc : sendsOf { net := corkOn cfg } = [] := by
+    unfold corkOn; split <;> rfl
+  have happ : ∀ (a b : List NetAct) (l : List AppAct),
+      sendsOf { net := a ++ b, app := l } = sendsOf { net := a } ++ sendsOf { net := b } := by
+    intro a b l; simp [sendsOf]
+  rw [happ, hc, List.append_nil]
+  cases cfg.isServer
+  · rfl
+  · exact sendsOf_one _
+
+theorem stOf_full_ok (hw : WellBehaved spec) (peer : Cfg) (h : NullCfg cfg) (ha : Adm peer cfg)
+    (hc : typesCompatible cfg.sockType peer.sockType = true) :
+    stOf spec cfg (greetOf .null peer.isServer ++ readyBytes peer) = dat [] := by
+  rw [stOf_append hw, stOf_greet_null hw _ h, read_ready_ok hw peer ha.1 ha.2 hc]
+
+theorem emitted_full_ok (hw : WellBehaved spec) (peer : Cfg) (h : NullCfg cfg) (ha : Adm peer cfg)
+    (hc : typesCompatible cfg.sockType peer.sockType = true) :
+    emitted spec cfg (greetOf .null peer.isServer ++ readyBytes peer) = nullFull cfg := by
+  rw [emitted_append hw, stOf_greet_null hw _ h, emitted_greet_null hw _ h, read_ready_ok hw peer ha.1 ha.2 hc,
+    sendsOf_ready_out, nullFull]
+  cases cfg.isServer <;> simp
+
+theorem appOf_full_ok (hw : WellBehaved spec) (peer : Cfg) (h : NullCfg cfg) (ha : Adm peer cfg)
+    (hc : typesCompatible cfg.sockType peer.sockType = true) :
+    appOf spec cfg (greetOf .null peer.isServer ++ readyBytes peer) = [handshakeOf peer] := by
+  rw [appOf_append hw, stOf_greet_null hw _ h, appOf_greet_null hw _ h, read_ready_ok hw peer ha.1 ha.2 hc]
+  rfl
+
+theorem stOf_full_bad (hw : WellBehaved spec) (peer : Cfg) (h : NullCfg cfg) (ha : Adm peer cfg)
+    (hc : typesCompatible cfg.sockType peer.sockType = false) :
+    (stOf spec cfg (greetOf .null peer.isServer ++ readyBytes peer)).phase = .closed := by
+  rw [stOf_append hw, stOf_greet_null hw _ h, read_ready_bad hw peer ha.1 ha.2 hc]
+  rfl
+
+theorem emitted_full_bad (hw : WellBehaved spec) (peer : Cfg) (h : NullCfg cfg) (ha : Adm peer cfg)
+    (hc : typesCompatible cfg.sockType peer.sockType = false) :
+    emitted spec cfg (greetOf .null peer.isServer ++ readyBytes peer)
+      = ownGreet cfg ++ (if cfg.isServer then [] else readyBytes cfg) := by
+  rw [emitted_append hw, stOf_greet_null hw _ h, emitted_greet_null hw _ h, read_ready_bad hw peer ha.1 ha.2 hc]
+  simp [fail, sendsOf]
+
+theorem appOf_full_bad (hw : WellBehaved spec) (peer : Cfg) (h : NullCfg cfg) (ha : Adm peer cfg)
+    (hc : typesCompatible cfg.sockType peer.sockType = false) :
+    appOf spec cfg (greetOf .null peer.isServer ++ readyBytes peer) = [.peerError .proto] := by
+  rw [appOf_append hw, stOf_greet_null hw _ h, appOf_greet_null hw _ h, read_ready_bad hw peer ha.1 ha.2 hc]
+  rfl
+
+theorem typesCompatible_symm (x y : SockName) : typesCompatible x y = typesCompatible y x := by
+  cases x <;> cases y <;> decide
+
+end Null
+
+-- ---------------------------------------------------------------------------------------------
+-- NULL/NULL: the only complete exchange is the pair of full transcripts
+-- ---------------------------------------------------------------------------------------------
+
+section Converge
+variable {spec : AbsSpec} {cfgA cfgB : Cfg}
+
+theorem null_fixpoint (hw : WellBehaved spec) (hA : NullCfg cfgA) (hB : NullCfg cfgB)
+    (hrole : cfgA.isServer = !cfgB.isServer)
+    (hcompat : typesCompatible cfgA.sockType cfgB.sockType = true)
+    (hrA : Adm cfgA cfgB) (hrB : Adm cfgB cfgA) {x y : Bytes}
+    (hx : x = emitted spec cfgB y) (hy : y = emitted spec cfgA x)
+    (bx : x <+: nullFull cfgB) (by' : y <+: nullFull cfgA) :
+    x = nullFull cfgB ∧ y = nullFull cfgA := by
+  have hcB : typesCompatible cfgB.sockType cfgA.sockType = true := by
+    rw [typesCompatible_symm]; exact hcompat
+  have hFA : emitted spec cfgA (nullFull cfgB) = nullFull cfgA := by
+    rw [nullFull, ownGreet_null hB]; exact emitted_full_ok hw cfgB hA hrB hcompat
+  have hFB : emitted spec cfgB (nullFull cfgA) = nullFull cfgB := by
+    rw [nullFull, ownGreet_null hA]; exact emitted_full_ok hw cfgA hB hrA hcB
+  obtain ⟨gx, gy⟩ := fix_greet hw hx hy
+  cases hs : cfgA.isServer with
+  | false =>
+    have h1 : nullFull cfgA <+: y := by
+      have := emitted_mono' (cfg := cfgA) hw gx
+      rw [ownGreet_null hB, emitted_greet_null hw _ hA, hs, ← hy] at this
+      exact this
+    have ey : y = nullFull cfgA := prefix_antisymm' by' h1
+    refine ⟨?_, ey⟩
+    rw [hx, ey, hFB]
+  | true =>
+    have hsB : cfgB.isServer = false := by
+      rw [hs] at hrole
+      cases h : cfgB.isServer with
+      | false => rfl
+      | true => rw [h] at hrole; cases hrole
+    have h1 : nullFull cfgB <+: x := by
+      have := emitted_mono' (cfg := cfgB) hw gy
+      rw [ownGreet_null hA, emitted_greet_null hw _ hB, hsB, ← hx] at this
+      exact this
+    have ex : x = nullFull cfgB := prefix_antisymm' bx h1
+    refine ⟨ex, ?_⟩
+    rw [hy, ex, hFA]
+
+theorem null_converges (hw : WellBehaved spec) (hA : NullCfg cfgA) (hB : NullCfg cfgB)
+    (hrole : cfgA.isServer = !cfgB.isServer)
+    (hcompat : typesCompatible cfgA.sockType cfgB.sockType = true)
+    (hrA : Adm cfgA cfgB) (hrB : Adm cfgB cfgA)
+    (s : List Move) (hne : ∀ m ∈ s, m ≠ .eofA ∧ m ≠ .eofB)
+    (hq : (Pair.run spec cfgA cfgB Pair.start s).ab = [] ∧ (Pair.run spec cfgA cfgB Pair.start s).ba = []) :
+    (Pair.run spec cfgA cfgB Pair.start s).a = dat [] ∧ (Pair.run spec cfgA cfgB Pair.start s).b = dat []
+    ∧ (Pair.run spec cfgA cfgB Pair.start s).appA = [handshakeOf cfgB]
+    ∧ (Pair.run spec cfgA cfgB Pair.start s).appB = [handshakeOf cfgA] := by
+  have hcB : typesCompatible cfgB.sockType cfgA.sockType = true := by
+    rw [typesCompatible_symm]; exact hcompat
+  have hFA : emitted spec cfgA (nullFull cfgB) = nullFull cfgA := by
+    rw [nullFull, ownGreet_null hB]; exact emitted_full_ok hw cfgB hA hrB hcompat
+  have hFB : emitted spec cfgB (nullFull cfgA) = nullFull cfgB := by
+    rw [nullFull, ownGreet_null hA]; exact emitted_full_ok hw cfgA hB hrA hcB
+  have q := PSD.of_start (cfgA := cfgA) (cfgB := cfgB) hw s hne
+  obtain ⟨_, _, -, bd⟩ := GI.of_start (cfgA := cfgA) (cfgB := cfgB) hw (FA := nullFull cfgA) (FB := nullFull cfgB)
+    (by rw [hFA]; exact List.prefix_refl _) (by rw [hFB]; exact List.prefix_refl _) s
+  have eA := q.emA; have eB := q.emB
+  unfold Bd at bd
+  rw [hq.1, List.append_nil] at eA bd
+  rw [hq.2, List.append_nil] at eB bd
+  obtain ⟨ex, ey⟩ := null_fixpoint hw hA hB hrole hcompat hrA hrB eB eA bd.1 bd.2
+  refine ⟨?_, ?_, ?_, ?_⟩
+  · rw [q.stA, ex, nullFull, ownGreet_null hB]; exact stOf_full_ok hw cfgB hA hrB hcompat
+  · rw [q.stB, ey, nullFull, ownGreet_null hA]; exact stOf_full_ok hw cfgA hB hrA hcB
+  · rw [q.appA, ex, nullFull, ownGreet_null hB]; exact appOf_full_ok hw cfgB hA hrB hcompat
+  · rw [q.appB, ey, nullFull, ownGreet_null hA]; exact appOf_full_ok hw cfgA hB hrA hcB
+
+end Converge
+
+-- ---------------------------------------------------------------------------------------------
+-- failing handshakes: generic assembly
+-- ---------------------------------------------------------------------------------------------
+
+section FailAssembly
+variable {spec : AbsSpec} {cfgA cfgB : Cfg}
+
+def NoHC (l : List AppAct) : Prop := ∀ x ∈ l, isHandshakeComplete x = false
+
+theorem NoHC.of_prefix {l m : List AppAct} (h : l <+: m) (hm : NoHC m) : NoHC l :=
+  fun x hx => hm x (h.subset hx)
+
+/-- `FA`/`FB` bound what the two endpoints can ever emit; within these transcripts nobody completes, and a
+complete exchange leaves at least one endpoint closed by an error: then every settled schedule ends with both
+closed and no `HandshakeComplete`. -/
+theorem fail_assembly (hw : WellBehaved spec) {FA FB : Bytes}
+    (hFA : emitted spec cfgA FB <+: FA) (hFB : emitted spec cfgB FA <+: FB)
+    (hnA : NoHC (appOf spec cfgA FB)) (hnB : NoHC (appOf spec cfgB FA))
+    (hfix : ∀ x y, x = emitted spec cfgB y → y = emitted spec cfgA x → x <+: FB → y <+: FA →
+      (stOf spec cfgA x).phase = .closed ∨ (stOf spec cfgB y).phase = .closed)
+    (s : List Move) (hq : (Pair.run spec cfgA cfgB Pair.start s).Settled) :
+    (Pair.run spec cfgA cfgB Pair.start s).a.phase = .closed
+    ∧ (Pair.run spec cfgA cfgB Pair.start s).b.phase = .closed
+    ∧ NoHC (Pair.run spec cfgA cfgB Pair.start s).appA ∧ NoHC (Pair.run spec cfgA cfgB Pair.start s).appB := by
+  obtain ⟨rA, rB, gi, bd⟩ := GI.of_start (cfgA := cfgA) (cfgB := cfgB) hw hFA hFB s
+  obtain ⟨hab, hba, hAB, hBA⟩ := hq
+  generalize Pair.run spec cfgA cfgB Pair.start s = p at *
+  have pA : rA <+: FB := gi.preA.trans ((List.prefix_append _ _).trans bd.1)
+  have pB : rB <+: FA := gi.preB.trans ((List.prefix_append _ _).trans bd.2)
+  have nA : NoHC p.appA := by
+    rw [gi.appA]; exact NoHC.of_prefix (appOf_mono hw pA) hnA
+  have nB : NoHC p.appB := by
+    rw [gi.appB]; exact NoHC.of_prefix (appOf_mono hw pB) hnB
+  have hcl : p.a.phase = .closed ∧ p.b.phase = .closed := by
+    rcases gi.liveA with ca | ⟨ra, sa⟩
+    · exact ⟨ca, hAB ca⟩
+    · rcases gi.liveB with cb | ⟨rb, sb⟩
+      · exact ⟨hBA cb, cb⟩
+      · have eA := gi.emA; have eB := gi.emB
+        have b1 := bd.1; have b2 := bd.2
+        rw [hab, List.append_nil] at eA b2
+        rw [hba, List.append_nil] at eB b1
+        subst ra; subst rb
+        rcases hfix p.recvA p.recvB eB eA b1 b2 with h | h
+        · rw [← sa] at h; exact ⟨h, hAB h⟩
+        · rw [← sb] at h; exact ⟨hBA h, h⟩
+  exact ⟨hcl.1, hcl.2, nA, nB⟩
+
+end FailAssembly
+
+-- ---------------------------------------------------------------------------------------------
+-- mechanism mismatch
+-- ---------------------------------------------------------------------------------------------
+
+section Mismatch
+variable {spec : AbsSpec} {cfg : Cfg}
+
+theorem read_tail_mismatch (hw : WellBehaved spec) (k : MechKind) (srv : Bool) (h : mechEnabled cfg k = false) :
+    onNetworkBytes spec cfg 0 g2 (tailOf k srv) = fail (gs true (some .v3) []) .sec := by
+  apply onNB_step1 hw
+  · have := addAcc_g2 k srv []
+    simp only [List.append_nil] at this
+    rw [this]
+    have := step_g3_mismatch (spec := spec) (cfg := cfg) 0 k srv [] h
+    rwa [List.append_nil] at this
+  · exact step_closed rfl
+
+theorem stOf_greet_mismatch (hw : WellBehaved spec) (k : MechKind) (srv : Bool) (h : mechEnabled cfg k = false) :
+    (stOf spec cfg (greetOf k srv)).phase = .closed := by
+  have := stOf_greet_split (spec := spec) (cfg := cfg) hw k srv []
+  rw [List.append_nil, List.append_nil, read_tail_mismatch hw k srv h] at this
+  rw [this]; rfl
+
+theorem emitted_greet_mismatch (hw : WellBehaved spec) (k : MechKind) (srv : Bool) (h : mechEnabled cfg k = false) :
+    emitted spec cfg (greetOf k srv) = ownGreet cfg := by
+  have := emitted_greet_split (spec := spec) (cfg := cfg) hw k srv []
+  rw [List.append_nil, List.append_nil, read_tail_mismatch hw k srv h] at this
+  rw [this]; simp [fail, sendsOf]
+
+theorem appOf_greet_mismatch (hw : WellBehaved spec) (k : MechKind) (srv : Bool) (h : mechEnabled cfg k = false) :
+    appOf spec cfg (greetOf k srv) = [.peerError .sec] := by
+  have := appOf_greet_split (spec := spec) (cfg := cfg) hw k srv []
+  rw [List.append_nil, List.append_nil, read_tail_mismatch hw k srv h] at this
+  rw [this]; rfl
+
+theorem noHC_peerError (e : ErrClass) : NoHC [.peerError e] := by
+  intro x hx; rw [List.mem_singleton] at hx; subst hx; rfl
+
+theorem noHC_nil : NoHC [] := fun _ h => absurd h (List.not_mem_nil)
+
+theorem mismatch_both_fail (hw : WellBehaved spec) {cfgA cfgB : Cfg} (hA : NullCfg cfgA) (hB : PlainCfg cfgB)
+    (s : List Move) (hq : (Pair.run spec cfgA cfgB Pair.start s).Settled) :
+    (Pair.run spec cfgA cfgB Pair.start s).a.phase = .closed
+    ∧ (Pair.run spec cfgA cfgB Pair.start s).b.phase = .closed
+    ∧ NoHC (Pair.run spec cfgA cfgB Pair.start s).appA ∧ NoHC (Pair.run spec cfgA cfgB Pair.start s).appB := by
+  have eA : mechEnabled cfgA .plain = false := hA.2.1
+  have eB : mechEnabled cfgB .null = false := by simp [mechEnabled, hB.1]
+  have gA := ownGreet_null hA
+  have gB := ownGreet_plain hB
+  apply fail_assembly hw (FA := ownGreet cfgA) (FB := ownGreet cfgB)
+  · rw [gB, emitted_greet_mismatch hw _ _ eA]; exact List.prefix_refl _
+  · rw [gA, emitted_greet_mismatch hw _ _ eB]; exact List.prefix_refl _
+  · rw [gB, appOf_greet_mismatch hw _ _ eA]; exact noHC_peerError _
+  · rw [gA, appOf_greet_mismatch hw _ _ eB]; exact noHC_peerError _
+  · intro x y hx hy _ _
+    obtain ⟨gx, _⟩ := fix_greet hw hx hy
+    left
+    rw [gB] at gx
+    exact stOf_closed_mono hw gx (stOf_greet_mismatch hw _ _ eA)
+  · exact hq
+
+end Mismatch
+
+-- ---------------------------------------------------------------------------------------------
+-- incompatible socket types
+-- ---------------------------------------------------------------------------------------------
+
+section Incompat
+variable {spec : AbsSpec}
+
+theorem incompat_both_fail (hw : WellBehaved spec) {cfgA cfgB : Cfg} (hA : NullCfg cfgA) (hB : NullCfg cfgB)
+    (hrole : cfgA.isServer = !cfgB.isServer)
+    (hcompat : typesCompatible cfgA.sockType cfgB.sockType = false)
+    (hrA : Adm cfgA cfgB) (hrB : Adm cfgB cfgA)
+    (s : List Move) (hq : (Pair.run spec cfgA cfgB Pair.start s).Settled) :
+    (Pair.run spec cfgA cfgB Pair.start s).a.phase = .closed
+    ∧ (Pair.run spec cfgA cfgB Pair.start s).b.phase = .closed
+    ∧ NoHC (Pair.run spec cfgA cfgB Pair.start s).appA ∧ NoHC (Pair.run spec cfgA cfgB Pair.start s).appB := by
+  have hcB : typesCompatible cfgB.sockType cfgA.sockType = false := by
+    rw [typesCompatible_symm]; exact hcompat
+  have gA := ownGreet_null hA
+  have gB := ownGreet_null hB
+  cases hs : cfgA.isServer with
+  | false =>
+    -- A connects, B listens: B rejects A's READY
+    have hsB : cfgB.isServer = true := by
+      rw [hs] at hrole
+      cases h : cfgB.isServer with
+      | true => rfl
+      | false => rw [h] at hrole; cases hrole
+    have e1 : emitted spec cfgA (ownGreet cfgB) = nullFull cfgA := by
+      rw [gB, emitted_greet_null hw _ hA, hs]; rfl
+    have e2 : emitted spec cfgB (nullFull cfgA) = ownGreet cfgB := by
+      rw [nullFull, gA, emitted_full_bad hw cfgA hB hrA hcB, hsB]; simp
+    apply fail_assembly hw (FA := nullFull cfgA) (FB := ownGreet cfgB)
+    · rw [e1]; exact List.prefix_refl _
+    · rw [e2]; exact List.prefix_refl _
+    · rw [gB, appOf_greet_null hw _ hA]; exact noHC_nil
+    · rw [nullFull, gA, appOf_full_bad hw cfgA hB hrA hcB]; exact noHC_peerError _
+    · intro x y hx hy _ _
+      obtain ⟨gx, _⟩ := fix_greet hw hx hy
+      right
+      have h1 : nullFull cfgA <+: y := by
+        have := emitted_mono' (cfg := cfgA) hw gx
+        rwa [e1, ← hy] at this
+      refine stOf_closed_mono hw h1 ?_
+      rw [nullFull, gA]; exact stOf_full_bad hw cfgA hB hrA hcB
+    · exact hq
+  | true =>
+    have hsB : cfgB.isServer = false := by
+      rw [hs] at hrole
+      cases h : cfgB.isServer with
+      | false => rfl
+      | true => rw [h] at hrole; cases hrole
+    have e1 : emitted spec cfgB (ownGreet cfgA) = nullFull cfgB := by
+      rw [gA, emitted_greet_null hw _ hB, hsB]; rfl
+    have e2 : emitted spec cfgA (nullFull cfgB) = ownGreet cfgA := by
+      rw [nullFull, gB, emitted_full_bad hw cfgB hA hrB hcompat, hs]; simp
+    apply fail_assembly hw (FA := ownGreet cfgA) (FB := nullFull cfgB)
+    · rw [e2]; exact List.prefix_refl _
+    · rw [e1]; exact List.prefix_refl _
+    · rw [nullFull, gB, appOf_full_bad hw cfgB hA hrB hcompat]; exact noHC_peerError _
+    · rw [gA, appOf_greet_null hw _ hB]; exact noHC_nil
+    · intro x y hx hy _ _
+      obtain ⟨_, gy⟩ := fix_greet hw hx hy
+      left
+      have h1 : nullFull cfgB <+: x := by
+        have := emitted_mono' (cfg := cfgB) hw gy
+        rwa [e1, ← hx] at this
+      refine stOf_closed_mono hw h1 ?_
+      rw [nullFull, gB]; exact stOf_full_bad hw cfgB hA hrB hcompat
+    · exact hq
+
+end Incompat
+
+-- ---------------------------------------------------------------------------------------------
+-- PLAIN with wrong credentials
+-- ---------------------------------------------------------------------------------------------
+
+section Plain
+variable {spec : AbsSpec} {cfg : Cfg}
+
+theorem read_tail_plain_cli (hw : WellBehaved spec) (srv : Bool) (h : cfg.usePlain = true)
+    (hs : cfg.isServer = false) :
+    onNetworkBytes spec cfg 0 g2 (tailOf .plain srv)
+      = (secS .clientExpectWelcome [], { net := [sendAct (helloBytes cfg)] }) := by
+  have h2 := onNB_step2 (spec := spec) (cfg := cfg) hw (s := g2) (d := tailOf .plain srv)
+    (s1 := secS .clientSendHello []) (o1 := {}) (s2 := secS .clientExpectWelcome [])
+    (o2 := { net := [sendAct (helloBytes cfg)] }) ?_ (step_sec_cli_hello 0 []) (step_sec_cli_wait 0)
+  · rw [h2]; simp
+  · have := addAcc_g2 .plain srv []
+    simp only [List.append_nil] at this
+    rw [this]
+    have := step_g3_plain_cli (spec := spec) (cfg := cfg) 0 srv [] h hs
+    rwa [List.append_nil] at this
+
+theorem read_tail_plain_srv (hw : WellBehaved spec) (srv : Bool) (h : cfg.usePlain = true)
+    (hs : cfg.isServer = true) :
+    onNetworkBytes spec cfg 0 g2 (tailOf .plain srv) = (secS .serverExpectHello [], {}) := by
+  apply onNB_step1 hw
+  · have := addAcc_g2 .plain srv []
+    simp only [List.append_nil] at this
+    rw [this]
+    have := step_g3_plain_srv (spec := spec) (cfg := cfg) 0 srv [] h hs
+    rwa [List.append_nil] at this
+  · exact step_sec_srv_wait 0
+
+theorem read_hello_bad (hw : WellBehaved spec) (peer : Cfg) (hs : cfg.isServer = true) (hmax : cfg.maxMsgSize < 0)
+    (hu : (peer.plainUser.getD []).length ≤ 255) (hp : (peer.plainPass.getD []).length ≤ 255)
+    (hwrong : cfg.plainUser ≠ some (peer.plainUser.getD []) ∨ cfg.plainPass ≠ some (peer.plainPass.getD [])) :
+    onNetworkBytes spec cfg 0 (secS .serverExpectHello []) (helloBytes peer)
+      = fail (secS .serverExpectHello []) .auth := by
+  apply onNB_step1 hw
+  · have := step_sec_srv_bad (spec := spec) (cfg := cfg) 0 peer [] hs hmax hu hp hwrong
+    rw [List.append_nil] at this
+    exact this
+  · exact step_closed rfl
+
+theorem creds_both_fail (hw : WellBehaved spec) {cfgA cfgB : Cfg}
+    (hA : PlainCfg cfgA) (hB : PlainCfg cfgB) (hcl : cfgA.isServer = false) (hsrv : cfgB.isServer = true)
+    (hu : (cfgA.plainUser.getD []).length ≤ 255) (hp : (cfgA.plainPass.getD []).length ≤ 255)
+    (hwrong : cfgB.plainUser ≠ some (cfgA.plainUser.getD []) ∨ cfgB.plainPass ≠ some (cfgA.plainPass.getD []))
+    (hmax : cfgB.maxMsgSize < 0)
+    (s : List Move) (hq : (Pair.run spec cfgA cfgB Pair.start s).Settled) :
+    (Pair.run spec cfgA cfgB Pair.start s).a.phase = .closed
+    ∧ (Pair.run spec cfgA cfgB Pair.start s).b.phase = .closed
+    ∧ NoHC (Pair.run spec cfgA cfgB Pair.start s).appA ∧ NoHC (Pair.run spec cfgA cfgB Pair.start s).appB := by
+  have gA := ownGreet_plain hA
+  have gB := ownGreet_plain hB
+  -- A's response to B's greeting
+  have rA := read_tail_plain_cli (spec := spec) (cfg := cfgA) hw cfgB.isServer hA.2.1 hcl
+  have e1 : emitted spec cfgA (ownGreet cfgB) = ownGreet cfgA ++ helloBytes cfgA := by
+    have := emitted_greet_split (spec := spec) (cfg := cfgA) hw .plain cfgB.isServer []
+    rw [List.append_nil, List.append_nil, rA, sendsOf_one] at this
+    rw [gB]; exact this
+  have a1 : appOf spec cfgA (ownGreet cfgB) = [] := by
+    have := appOf_greet_split (spec := spec) (cfg := cfgA) hw .plain cfgB.isServer []
+    rw [List.append_nil, List.append_nil, rA] at this
+    rw [gB]; exact this
+  -- B's response to A's greeting and HELLO
+  have rB := read_tail_plain_srv (spec := spec) (cfg := cfgB) hw cfgA.isServer hB.2.1 hsrv
+  have sB : stOf spec cfgB (ownGreet cfgA) = secS .serverExpectHello [] := by
+    have := stOf_greet_split (spec := spec) (cfg := cfgB) hw .plain cfgA.isServer []
+    rw [List.append_nil, List.append_nil, rB] at this
+    rw [gA]; exact this
+  have eB0 : emitted spec cfgB (ownGreet cfgA) = ownGreet cfgB := by
+    have := emitted_greet_split (spec := spec) (cfg := cfgB) hw .plain cfgA.isServer []
+    rw [List.append_nil, List.append_nil, rB] at this
+    rw [gA, this]; simp
+  have aB0 : appOf spec cfgB (ownGreet cfgA) = [] := by
+    have := appOf_greet_split (spec := spec) (cfg := cfgB) hw .plain cfgA.isServer []
+    rw [List.append_nil, List.append_nil, rB] at this
+    rw [gA]; exact this
+  have rH := read_hello_bad (spec := spec) (cfg := cfgB) hw cfgA hsrv hmax hu hp hwrong
+  have e2 : emitted spec cfgB (ownGreet cfgA ++ helloBytes cfgA) = ownGreet cfgB := by
+    rw [emitted_append hw, sB, rH, eB0]; simp [fail, sendsOf]
+  have a2 : appOf spec cfgB (ownGreet cfgA ++ helloBytes cfgA) = [.peerError .auth] := by
+    rw [appOf_append hw, sB, rH, aB0]; rfl
+  have s2 : (stOf spec cfgB (ownGreet cfgA ++ helloBytes cfgA)).phase = .closed := by
+    rw [stOf_append hw, sB, rH]; rfl
+  apply fail_assembly hw (FA := ownGreet cfgA ++ helloBytes cfgA) (FB := ownGreet cfgB)
+  · rw [e1]; exact List.prefix_refl _
+  · rw [e2]; exact List.prefix_refl _
+  · rw [a1]; exact noHC_nil
+  · rw [a2]; exact noHC_peerError _
+  · intro x y hx hy _ _
+    obtain ⟨gx, _⟩ := fix_greet hw hx hy
+    right
+    have h1 : ownGreet cfgA ++ helloBytes cfgA <+: y := by
+      have := emitted_mono' (cfg := cfgA) hw gx
+      rwa [e1, ← hy] at this
+    exact stOf_closed_mono hw h1 s2
+  · exact hq
+
+end Plain
+
 end Rzmq
